@@ -1460,7 +1460,12 @@ def run_check(ctx, prop):
                 "from_array or directly in random dict order; every operation of C06's quantifier with its full argument space; the real "
                 "receiver is re-abstracted before EVERY step.  evaluation = one step (C15: + one ==/!= comparison; C07: + one INDX "
                 "load / from_array result); distinct non-trivial = distinct (state before, operation+arguments) pairs in which the "
-                "state before or after has at least one entry" % max_steps)
+                "state before or after has at least one entry.  The in-Coq tie is SMALL-SCOPE (N<=8 initial rows).  In addition a SCALE stream "
+                "(histories of 3-8 steps from sparse indexes of 130-400 rows, 1-3 columns, 50-200-row append operands, multi-value "
+                "out-of-order updates; and a few one-step 'huge' cases on skewed arrays of more than 65 536 cells) is ALWAYS judged by the "
+                "model-free oracles (NumPy on the dense array, validate(True)+range/arity, common is a most frequent value); its steps are "
+                "compared inside Coq too only while their literals stay small; the oracle-only cases are counted separately "
+                "(coverage.scale_*)" % max_steps)
     ctx.trusted = list(core.STD_TRUSTED) + [
         "harness/iindex_hist.py: abstraction of a real iindex (dict order, int(row ids), common, shape) into a Model.v record literal; "
         "items of set-update operands whose value is None are dropped by the abstraction",
@@ -1594,7 +1599,76 @@ def run_check(ctx, prop):
         for _ in range(1500 if ctx.tier == "quick" else 8000):      # fresh small arrays aimed at interleaving merges
             add_mapped(fresh_array(rng), None)
     cov.stop()
-    ctx.evaluations = len(mcases) + len(cases) + (len(eqcases) if prop == "C15" else 0) + len(lcases) + len(fcases)
+    # ---- scale stream (a): histories over indexes of hundreds of rows ----
+    n_scale, n_huge = (40, 3) if ctx.tier == "quick" else (400, 8)
+    LIT_CAP, EQ_CAP = 8000, 3000
+    scases, sowners = [], []
+    scale_steps = scale_oracle_only = scale_eq_oracle_only = 0
+    scale_rows = collections.Counter()
+    scale_ops = collections.Counter()
+    for k in range(n_scale):
+        h = run_history(impl, rng, max_steps, with_eq=True, own=prop, pool=None, scale=True)
+        hn = len(hists)
+        hists.append(h)
+        for (i, p_, sig, text) in h.problems:
+            py_problems.append((hn, i, p_, sig, text))
+        for i, st in enumerate(h.steps):
+            scale_steps += 1
+            scale_ops[st.op["op"]] += 1
+            scale_rows["%d-%d rows" % (st.before["shape"][0] // 200 * 200, st.before["shape"][0] // 200 * 200 + 199)] += 1
+            if getattr(st, "tainted", False) or (st.after is None and not st.raised):
+                scale_oracle_only += 1
+                continue
+            if any(p_[0] != prop for p_ in st.problems) and not any(p_[0] == prop for p_ in st.problems) and st.after is not None and not sane_for_densify(st.after):
+                scale_oracle_only += 1
+                continue
+            lit = lit_case(st.before, st.op, st.after, st.raised, st.obs, None)      # NumPy's rows stay on the Python side
+            if len(lit) <= LIT_CAP:
+                scases.append(lit)
+                sowners.append((hn, i))
+                ctx.nontrivial.add(hash((json.dumps(st.before, sort_keys=True), json.dumps(st.op, sort_keys=True))))
+            else:
+                scale_oracle_only += 1
+        if prop == "C15":
+            for c in h.eqcases:
+                lit = lit_ecase(*c)
+                eq_total += 1
+                if len(lit) > EQ_CAP:
+                    scale_eq_oracle_only += 1
+                elif lit not in eqseen:
+                    eqseen.add(lit)
+                    eqcases.append(lit)
+                    eqowners.append(hn)
+    # ---- scale stream (b): 'huge' one-step cases, oracle only ----
+    huge_judgements = 0
+    huge_shapes = []
+    for k in range(n_huge):
+        q = huge_params(rng)
+        arr_shape = tuple(q["shape"])
+        op = huge_op(rng, impl, q, numpy.empty(arr_shape, dtype=numpy.int8), None)
+        try:
+            probs, nj = run_huge_case(impl, q, op)
+        except Exception as e:  # noqa
+            import traceback
+            probs, nj = [(prop, "huge:unexpected-exception", "%s: %s  %s" % (type(e).__name__, str(e)[:160], traceback.format_exc()[-500:]))], 0
+        huge_judgements += nj
+        huge_shapes.append("%s then %s" % ("x".join(str(x) for x in arr_shape), op["op"]))
+        for (pp, sig, text) in probs:
+            if pp == prop:
+                extra_problems.append((sig, text, {"huge": q, "op": op, "observed": text[:600],
+                                                   "how": "a = iindex_hist.huge_array(huge); idx = iindex.from_array(a); then op; judged by NumPy / validate(True) / most-frequent (no Coq literal)"}))
+    ctx.coverage["scale_histories"] = n_scale
+    ctx.coverage["scale_steps(all oracle-judged)"] = scale_steps
+    ctx.coverage["scale_steps_also_compared_in_coq"] = len(scases)
+    ctx.coverage["scale_steps_oracle_only"] = scale_oracle_only
+    ctx.coverage["scale_row_count_distribution"] = dict(scale_rows)
+    ctx.coverage["scale_operation_distribution"] = dict(scale_ops)
+    if prop == "C15":
+        ctx.coverage["scale_eq_comparisons_oracle_only"] = scale_eq_oracle_only
+    ctx.coverage["huge_oracle_only_cases"] = n_huge
+    ctx.coverage["huge_oracle_only_judgements"] = huge_judgements
+    ctx.coverage["huge_cases"] = huge_shapes
+    ctx.evaluations = len(mcases) + len(cases) + len(scases) + (len(eqcases) if prop == "C15" else 0) + len(lcases) + len(fcases)
     ctx.coverage["histories"] = n_hist
     ctx.coverage["steps"] = len(cases)
     ctx.coverage["operation_distribution"] = dict(opdist)
@@ -1611,6 +1685,12 @@ def run_check(ctx, prop):
     failing = list(res.failing)
     errors = list(res.errors)
     explain = res.explain
+    res_s = core.run_cases(prop.lower() + "scale", PRELUDE, scases, "scase", CHK[prop], "explain", shard_size=30)
+    failing += [len(cases) + k for k in res_s.failing]
+    errors += res_s.errors
+    explain = (explain or "") + (res_s.explain or "")
+    n_small = len(cases)
+    all_cases, all_owners = cases + scases, owners + sowners
     ctx.coverage["model_disagreements"] = len(failing)
     res2 = res3 = res4 = res5 = None
     if prop == "C15":
@@ -1684,7 +1764,7 @@ def run_check(ctx, prop):
                 rep["one_step"] = one_step_repro(h.steps[i])
                 rep["shrink_error"] = repr(e)
         ctx.report(sig, text[:300], rep)
-    if prop in ("C07", "C15"):
+    if True:
         done = set()
         for sig, why, rep in sorted(extra_problems, key=lambda x: len(json.dumps(x[2], default=str))):      # smallest input first
             if sig not in done:
@@ -1692,7 +1772,7 @@ def run_check(ctx, prop):
                 rep["count_of_this_signature"] = sum(1 for x in extra_problems if x[0] == sig)
                 ctx.report(sig, why[:300], rep)
     py_steps = {(hn, i) for (hn, i, p, sig, text) in py_problems}
-    unexplained = [k for k in failing if owners[k] not in py_steps]
+    unexplained = [k for k in failing if all_owners[k] not in py_steps]
     eq_unexplained, load_unexplained, from_unexplained = [], [], []
     if res2 is not None:
         bad_h = {hn for (hn, i, p, sig, text) in py_problems}
@@ -1718,8 +1798,8 @@ def run_check(ctx, prop):
             what.append("correspondence shards failed to evaluate: %s" % (errors[0][1][-400:],))
         ctx.report(prop.lower() + ":not-shown", "; ".join(what), {
             "proof_log": ("" if pr["ok"] else pr["log"][-3000:]) + ("" if ok_chk else log_chk[-2000:]),
-            "disagreeing_steps": [{"history": history_json(hists[owners[k][0]], owners[k][1]), "one_step": one_step_repro(hists[owners[k][0]].steps[owners[k][1]]),
-                                   "coq_case": cases[k][:3000]} for k in unexplained[:5]],
+            "disagreeing_steps": [{"history": history_json(hists[all_owners[k][0]], all_owners[k][1]), "one_step": one_step_repro(hists[all_owners[k][0]].steps[all_owners[k][1]]),
+                                   "coq_case": all_cases[k][:3000]} for k in unexplained[:5]],
             "disagreeing_eq_cases": [eqcases[k][:2000] for k in eq_unexplained[:5]],
             "disagreeing_load_cases": [lcases[k][:2000] for k in load_unexplained[:5]],
             "disagreeing_from_array_cases": [(fcases + mcases)[k][:2000] for k in from_unexplained[:5]],
@@ -1738,6 +1818,11 @@ def replay_check(ctx, prop, path):
         for p in st.problems:
             print("one-step replay: %s %s: %s" % p)
             found.append(p)
+    if r.get("huge"):
+        probs, nj = run_huge_case(impl, r["huge"], r.get("op"))
+        for pr_ in probs:
+            print("huge-case replay: %s %s: %s" % (pr_[0], pr_[1], pr_[2][:400]))
+            found.append(pr_)
     if r.get("from_array_args"):
         g = r["from_array_args"]
         a = numpy.array(g["array"], dtype=int).reshape(g["shape"])
@@ -1763,6 +1848,6 @@ def replay_check(ctx, prop, path):
     ctx.nontrivial.update(range(max(2, ctx.evaluations)))
     mine = [f for f in found if f[0] == prop]
     if mine:
-        ctx.report(mine[0][1], "replayed failing input still fails: " + mine[0][2][:300], {k: r[k] for k in ("history", "one_step", "failing_step", "from_array_args") if k in r})
+        ctx.report(mine[0][1], "replayed failing input still fails: " + mine[0][2][:300], {k: r[k] for k in ("history", "one_step", "failing_step", "from_array_args", "huge", "op") if k in r})
     else:
         print("replay: the recorded input no longer fails")
